@@ -346,11 +346,19 @@ func SSAFuncInRepo(fn *ssa.Function) bool {
 // Reachable returns repo functions reachable in the call graph from the entries (closures of a
 // reachable function are included: an anonymous function is reachable when its parent is).
 func (p *Prog) Reachable(entries []*ssa.Function) map[*ssa.Function]bool {
+	return p.ReachableExcept(entries, nil)
+}
+
+// ReachableExcept is Reachable without entering the functions for which stop returns true.
+func (p *Prog) ReachableExcept(entries []*ssa.Function, stop func(*ssa.Function) bool) map[*ssa.Function]bool {
 	cg := p.CallGraph()
 	seen := map[*ssa.Function]bool{}
 	var work []*ssa.Function
 	push := func(f *ssa.Function) {
 		if f == nil || seen[f] {
+			return
+		}
+		if stop != nil && stop(f) {
 			return
 		}
 		seen[f] = true
@@ -373,6 +381,15 @@ func (p *Prog) Reachable(entries []*ssa.Function) map[*ssa.Function]bool {
 		n := cg.Nodes[f]
 		if n == nil {
 			continue
+		}
+		// the HTTP stack is not traversed: its only way back into the repository is through
+		// http.Handler values, which VTA resolves to every handler in the program (the client side used
+		// by the loader would "reach" the validation middleware)
+		if !SSAFuncInRepo(f) && f.Pkg != nil {
+			pp := f.Pkg.Pkg.Path()
+			if pp == "net/http" || strings.HasPrefix(pp, "net/http/") || pp == "net" || strings.HasPrefix(pp, "crypto/") || strings.HasPrefix(pp, "golang.org/x/net/") || pp == "github.com/gorilla/mux" {
+				continue
+			}
 		}
 		for _, e := range n.Out {
 			push(e.Callee.Func)
